@@ -186,11 +186,11 @@ pub fn check() -> Result<(), String> {
     let w = world();
     let mut p = Prog::new(1, Nest::Body, Kind::Const, vec!["K"]);
     p.fnb.imports_before = vec![imp(&["b", "K"]), imp(&["super", "b"])];
-    if expect(&w, &p, Sem { order_dependent: true, super_walks: false }) != Expect::Tag(24) {
+    if expect(&w, &p, Sem::defect(true, false)) != Expect::Tag(24) {
         return Err("defect model order_dependent does not predict 24".into());
     }
     let p = Prog::new(1, Nest::Body, Kind::Const, vec!["super", "pkg", "K"]);
-    if expect(&w, &p, Sem { order_dependent: false, super_walks: true }) != Expect::Tag(20) {
+    if expect(&w, &p, Sem::defect(false, true)) != Expect::Tag(20) {
         return Err("defect model super_walks does not predict 20".into());
     }
     Ok(())
